@@ -1,5 +1,6 @@
 import AsmjitVerif.Model.CallConv
 import AsmjitVerif.Spec.ABI
+import AsmjitVerif.Model.ArgShuffle
 import AsmjitVerif.Spec.Machine
 import Driver.Common
 open AsmjitVerif.CallConv
@@ -92,9 +93,15 @@ def monFd (ws : List String) : String :=
   | _ => "bad-op"
 
 
-/-! ### monitor of the argument shuffle: the implementation's instruction list run on Spec/Machine.lean -/
+/-! ### the argument shuffle: model (`shm`) and monitor (`monsh`) -/
 namespace Shuffle
-open AsmjitVerif.Machine
+open AsmjitVerif.Shuffle AsmjitVerif.Machine
+
+def opndStr : Opnd → String
+  | .reg rt id => s!"r{rt}.{id}"
+  | .mem b o n => s!"m{b}.{o}.{n}"
+
+def instStr (i : Inst) : String := " ".intercalate (i.text :: i.ops.map opndStr)
 
 def parseOpnd (s : String) : Option Opnd :=
   match s.toList with
@@ -108,74 +115,116 @@ def parseOpnd (s : String) : Option Opnd :=
     | _ => none
   | _ => none
 
+def allMn : List Mn :=
+  [.mov, .movzx, .movsx, .movsxd, .xchg, .movd, .movq, .movss, .movsd, .movaps, .movups, .movapd, .movdqa, .vmovdqa32, .kmovb, .kmovw,
+   .kmovd, .kmovq, .movq2dq, .movdq2q, .cvtss2sd, .cvtsd2ss, .cvtps2pd, .cvtpd2ps, .ldr, .ldrb, .ldrh, .ldrsb, .ldrsh, .ldrsw, .str,
+   .strb, .strh, .fmov]
+
+def parseMn (s : String) : Option (Mn × Bool) :=
+  match allMn.find? (·.text == s) with
+  | some m => some (m, false)
+  | none => (allMn.find? fun m => "v" ++ m.text == s).map fun m => (m, true)
+
 def parseInst (s : String) : Option Inst :=
   match words s with
-  | name :: ops => do some { name := name, ops := ← ops.mapM parseOpnd }
+  | name :: ops => do
+    let (m, vex) ← parseMn name
+    some { name := m, vex := vex, ops := ← ops.mapM parseOpnd }
   | [] => none
 
-/-- `RegUtils::type_id_of` for the register types a destination may have -/
-def typeIdOfReg (rt : Nat) : Nat :=
-  if rt = 2 || rt = 3 then 34 else if rt = 4 then 36 else if rt = 5 then 38 else if rt = 6 then 40 else if rt = 9 then 55
-  else if rt = 10 then 65 else if rt = 11 then 75 else if rt = 12 then 85 else if rt = 13 then 95 else if rt = 28 then 50 else 0
-
-/-- destination token `-` | `r<rt>.<id>[.<tid>]` | `s<off>[.<tid>]` → (location, explicit type) -/
-def parseDst (s : String) : Option (Option (Loc × Nat × Nat)) :=   -- (loc, regtype or 0, type or 0)
+/-- destination token `-` | `r<rt>.<id>[.<tid>]` | `s<off>[.<tid>]` as the `FuncValue` FuncArgsAssignment holds -/
+def parseDst (s : String) : Option (Option FuncValue) :=
   if s == "-" then some none else
   match s.toList with
   | 'r' :: rest =>
     match ((String.ofList rest).splitOn ".").mapM (·.toNat?) with
-    | some [rt, id] => some (some (.reg (groupOf rt) id, rt, 0))
-    | some [rt, id, t] => some (some (.reg (groupOf rt) id, rt, t))
+    | some [rt, id] => some (some (.reg 0 rt id))
+    | some [rt, id, t] => some (some (.reg t rt id))
     | _ => none
   | 's' :: rest =>
-    match ((String.ofList rest).splitOn ".") with
-    | [o] => do some (some (.outStack (← o.toInt?), 0, 0))
-    | [o, t] => do some (some (.outStack (← o.toInt?), 0, ← t.toNat?))
+    match ((String.ofList rest).splitOn ".").mapM (·.toNat?) with
+    | some [o] => some (some (.stack 0 o))
+    | some [o, t] => some (some (.stack t o))
     | _ => none
   | _ => none
 
-/-- `monsh <sig> <ff> <sa> <dst>*n | <implementation answer>` -/
-def monStep (ws : List String) : String :=
+structure ShLine where
+  env : Env
+  sig : Signature
+  ff : Nat
+  argsSa : Nat
+  dsts : List (Option FuncValue)
+  rest : List String
+
+def parseSh (ws : List String) : Option ShLine :=
   match parseSig ws with
-  | some (e, sig, _ff :: _sa :: rest) =>
+  | some (e, sig, ff :: sa :: rest) => do
     let n := sig.args.length
-    let dsts := rest.take n
-    match rest.drop n with
+    if rest.length < n then none else
+    let ds ← (rest.take n).mapM parseDst
+    let ff ← parseHex? ff
+    let sa ← if sa == "-" then some 255 else sa.toNat?
+    some ⟨e, sig, ff, sa, ds, rest.drop n⟩
+  | _ => none
+
+def cfgOf (l : ShLine) : Cfg :=
+  { arch := l.env.arch, avx := l.ff &&& 6 != 0, avx512 := l.ff &&& 4 != 0,
+    stackAlign := if l.env.arch = .x86 && l.env.win then 4 else 16 }
+
+def i32 (n : Int) : Int := if n ≥ 2147483648 then n - 4294967296 else n
+
+/-- frame facts `fp da saReg offSp offSa d0..d3 p0..p3` -/
+def parseFrame (ws : List String) : Option FrameIn :=
+  match ws.mapM (·.toInt?) with
+  | some [fp, da, sa, osp, osa, d0, d1, d2, d3, p0, p1, p2, p3] =>
+    some { fp := fp != 0, da := da != 0, saReg := sa.toNat, saOffSp := i32 osp, saOffSa := i32 osa,
+           dirty := [d0.toNat, d1.toNat, d2.toNat, d3.toNat], preserved := [p0.toNat, p1.toNat, p2.toNat, p3.toNat] }
+  | _ => none
+
+def valsOf (d : Detail) (dsts : List (Option FuncValue)) : List (FuncValue × Option FuncValue) :=
+  (d.args.map (·.headD (FuncValue.ofType 0))).zip dsts
+
+/-- `shm <sh line> # <frame facts>`: the model's answer `status | instructions` -/
+def shStep (ws : List String) : String :=
+  match parseSh ws with
+  | some l =>
+    match l.rest with
+    | "#" :: fr =>
+      match parseFrame fr, initFuncDetail l.env l.sig with
+      | some f, .ok (_, d) =>
+        let (st, insts) := emitArgsAssignment (cfgOf l) f l.argsSa (valsOf d l.dsts)
+        (match st with | none => "ok" | some m => "err " ++ m) ++ " | " ++ ";".intercalate (insts.map instStr)
+      | _, .error m => "fd-err " ++ m
+      | none, _ => "bad-op frame"
+    | _ => "bad-op sep"
+  | none => "bad-op sig"
+
+/-- `monsh <sh line> | <status...> sa=<id>.<da>.<off> fr=... | <instructions>` -/
+def monStep (ws : List String) : String :=
+  match parseSh ws with
+  | some l =>
+    match l.rest with
     | "|" :: status :: more =>
       if status != "ok" then "refused" else
       match more with
-      | saTok :: "|" :: instWords =>
-        match initFuncDetail e sig, dsts.mapM parseDst, (saTok.drop 3).toString.splitOn "." with
-        | .ok (_, d), some ds, [saId, _, saOff] =>
-          match saId.toNat?, saOff.toInt?, ((" ".intercalate instWords).splitOn ";").filter (· ≠ "") |>.mapM parseInst with
-          | some saId, some saOff, some insts =>
-            let sp := if e.arch = .a64 then 31 else 4
-            let srcs := d.args.map (·.headD (FuncValue.ofType 0))
-            let vars : List VarInfo := (srcs.zip ds).map fun (src, dd) =>
-              match dd with
-              | some (_, rt, t) => { srcType := src.typeId, dstType := if t ≠ 0 then t else if rt ≠ 0 then typeIdOfReg rt else src.typeId }
-              | none => { srcType := src.typeId, dstType := src.typeId }
-            let idx := List.range n
-            let init : State := (idx.zip (srcs.zip ds)).filterMap fun (i, src, dd) =>
-              match dd with
-              | none => none
-              | some _ =>
-                if src.isReg then some (Loc.reg (groupOf src.regType) src.regId, { var := i, ext := false })
-                else if src.isStack then some (Loc.argStack src.stackOffset, { var := i, ext := false }) else none
-            let dests : List (Nat × Loc) := (idx.zip ds).filterMap fun (i, dd) => dd.map fun (l, _, _) => (i, l)
-            match run vars saId saOff sp init insts with
+      | _saTok :: frTok :: "|" :: instWords =>
+        match initFuncDetail l.env l.sig, parseFrame ((frTok.drop 3).toString.splitOn ".") with
+        | .ok (_, d), some f =>
+          match ((" ".intercalate instWords).splitOn ";").filter (· ≠ "") |>.mapM parseInst with
+          | some insts =>
+            let sp := spId l.env.arch
+            let (vars, init, dests) := setup (valsOf d l.dsts)
+            match run vars f.saOffSp f.saOffSa sp init insts with
             | none => "BAD unknown-instruction-or-address"
             | some fin =>
-              if shuffleOk vars dests fin then "good"
-              else
-                let bad := dests.filter fun (v, l) => !destOk vars fin v l
-                "BAD dest-of-arg " ++ toString (bad.map (·.1))
-          | _, _, _ => "bad-op insts"
-        | .error m, _, _ => "skip fd-" ++ m
-        | _, _, _ => "bad-op dst"
+              if shuffleOk dests fin then "good"
+              else "BAD dest-of-arg " ++ toString ((dests.filter fun (v, loc) => !destOk fin v loc).map (·.1))
+          | none => "bad-op insts"
+        | .error m, _ => "skip fd-" ++ m
+        | _, _ => "bad-op frame"
       | _ => "bad-op ans"
     | _ => "bad-op sep"
-  | _ => "bad-op sig"
+  | none => "bad-op sig"
 
 end Shuffle
 
@@ -197,6 +246,7 @@ def step (_ : Unit) (line : String) : Unit × String :=
     | _ => ((), "bad-op")
   | "monfd" :: rest => ((), monFd rest)
   | "monsh" :: rest => ((), Shuffle.monStep rest)
+  | "shm" :: rest => ((), Shuffle.shStep rest)
   | _ => ((), "bad-op")
 
 def main : IO Unit := do
